@@ -1,0 +1,67 @@
+package utils
+
+import (
+	"fmt"
+	"reflect"
+	"sort"
+	"strings"
+)
+
+// rejectAmbiguousKeys panics when a map that is about to be decoded into a struct carries two keys that differ only in
+// letter case. The decoder matches keys to fields case-insensitively by ranging over the map, so with such keys the
+// field would take whichever value the iteration happens to meet first - a different one from call to call.
+// Maps decoded into maps keep their keys as data (criterion ids may differ in case only) and are not restricted.
+func rejectAmbiguousKeys(src interface{}, target reflect.Type) {
+	if src == nil || target == nil {
+		return
+	}
+	for target.Kind() == reflect.Ptr {
+		target = target.Elem()
+	}
+	value := reflect.ValueOf(src)
+	for value.Kind() == reflect.Ptr || value.Kind() == reflect.Interface {
+		if value.IsNil() {
+			return
+		}
+		value = value.Elem()
+	}
+	switch target.Kind() {
+	case reflect.Struct:
+		if value.Kind() != reflect.Map || value.Type().Key().Kind() != reflect.String {
+			return
+		}
+		keys := make([]string, 0, value.Len())
+		for _, k := range value.MapKeys() {
+			keys = append(keys, k.String())
+		}
+		sort.Strings(keys)
+		seen := make(map[string]string, len(keys))
+		for _, k := range keys {
+			folded := strings.ToLower(k)
+			if other, taken := seen[folded]; taken {
+				panic(fmt.Errorf("keys '%s' and '%s' differ only in letter case", other, k))
+			}
+			seen[folded] = k
+		}
+		for i := 0; i < target.NumField(); i++ {
+			field := target.Field(i)
+			if key, ok := seen[strings.ToLower(field.Name)]; ok {
+				rejectAmbiguousKeys(value.MapIndex(reflect.ValueOf(key).Convert(value.Type().Key())).Interface(), field.Type)
+			}
+		}
+	case reflect.Slice, reflect.Array:
+		if value.Kind() != reflect.Slice && value.Kind() != reflect.Array {
+			return
+		}
+		for i := 0; i < value.Len(); i++ {
+			rejectAmbiguousKeys(value.Index(i).Interface(), target.Elem())
+		}
+	case reflect.Map:
+		if value.Kind() != reflect.Map {
+			return
+		}
+		for _, k := range value.MapKeys() {
+			rejectAmbiguousKeys(value.MapIndex(k).Interface(), target.Elem())
+		}
+	}
+}
